@@ -39,3 +39,97 @@ def add_py_cadence_rule(ck):
     ck.add(pysym.obligations_of(outs, "digital_rf_hdf5.DigitalRFWriter.__init__"))
     if n_ok == 0:
         raise EngineError("no successful path through DigitalRFWriter.__init__")
+
+
+# ----------------------------------------------------------------------------------------------------------------------------
+# C11: the parameters a session is opened with are the ones handed to the C layer (which compares them with the stored ones)
+
+COMPS = ("i1", "u1", "i2", "u2", "i4", "u4", "i8", "u8", "f4", "f8")
+
+
+def init_cells():
+    for comp in COMPS:
+        for order in ("<", ">", "="):
+            forms = ["real", "real_as_complex", "struct"] + (["npcomplex"] if comp[0] == "f" else [])
+            for form in forms:
+                yield comp, order, form
+
+
+def cell_dtype(np, comp, order, form):
+    base = np.dtype(order + comp)
+    if form == "struct":
+        return np.dtype([("r", base), ("i", base)])
+    if form == "npcomplex":
+        return np.dtype(order + "c%d" % (2 * base.itemsize))
+    return base
+
+
+def add_py_init_params(ck):
+    """Enumerated contract of the real DigitalRFWriter.__init__ against a recording stand-in for the extension's init: for every
+    component type x byte order x way of giving the sample type, the byte order, class, size and complex flag that reach the C layer
+    are those of the sample type's components, and the other channel parameters are passed on unchanged."""
+    import sys
+    import numpy as np
+    mod = pyload.module("digital_rf_hdf5", symbolic=False)
+    W = mod.DigitalRFWriter
+    ck.add_function(pyload.source_info(mod, "DigitalRFWriter.__init__"))
+    real_ext = mod._py_rf_write_hdf5
+    bad, n = [], 0
+    PARAMS = dict(S=3600, F=500, start=123456789, num=200, den=3, uuid="session-uuid", comp_level=4, checksum=True, nsub=3, cont=False)
+    try:
+        for comp, order, form in init_cells():
+            calls = []
+            mod._py_rf_write_hdf5 = types.SimpleNamespace(init=lambda *a: (calls.append(a), object())[1])
+            dt = cell_dtype(np, comp, order, form)
+            base = np.dtype(order + comp)
+            self_ = object.__new__(W)
+            n += 1
+            try:
+                W.__init__(self_, "/tmp", dt, PARAMS["S"], PARAMS["F"], PARAMS["start"], PARAMS["num"], PARAMS["den"], uuid_str=PARAMS["uuid"],
+                           compression_level=PARAMS["comp_level"], checksum=PARAMS["checksum"], is_complex=(form == "real_as_complex"),
+                           num_subchannels=PARAMS["nsub"], is_continuous=PARAMS["cont"], marching_periods=False)
+            except Exception as e:
+                bad.append(((comp, order, form), "constructor raised %r" % (e,)))
+                continue
+            if len(calls) != 1:
+                bad.append(((comp, order, form), "%d calls of the extension's init" % len(calls)))
+                continue
+            a = calls[0]
+            # the component type the writer stores (and casts samples to): the given one, except that a numpy complex type is
+            # normalised to native order by design (its samples are converted by value)
+            eff = getattr(self_, "realdtype", None)
+            if not isinstance(eff, np.dtype) or eff.kind != comp[0] or eff.itemsize != base.itemsize or (form != "npcomplex" and eff != base):
+                bad.append(((comp, order, form), "writer stores component type %r for samples given as %r" % (eff, dt)))
+                continue
+            base = eff
+            is_big = base.byteorder == ">" or (base.byteorder == "=" and sys.byteorder == "big")
+            want_order = ">" if is_big else "<"
+            want = {"directory": "/tmp", "class": comp[0], "size": base.itemsize, "S": PARAMS["S"], "F": PARAMS["F"], "start": PARAMS["start"], "num": PARAMS["num"],
+                    "den": PARAMS["den"], "uuid": PARAMS["uuid"], "compression": PARAMS["comp_level"], "checksum": 1, "complex": int(form != "real"),
+                    "nsub": PARAMS["nsub"], "continuous": PARAMS["cont"]}
+            got = {"directory": a[0], "class": a[2], "size": a[3], "S": a[4], "F": a[5], "start": a[6], "num": a[7], "den": a[8], "uuid": a[9], "compression": a[10],
+                   "checksum": a[11], "complex": a[12], "nsub": a[13], "continuous": bool(a[14])}
+            diff = {k: (got[k], want[k]) for k in want if got[k] != want[k]}
+            # one-byte samples have no byte order: any value is accepted there
+            if base.itemsize > 1 and a[1] != want_order:
+                diff["byteorder"] = (a[1], want_order)
+            if diff:
+                bad.append(((comp, order, form), "extension init received %s (got, expected)" % (diff,)))
+    finally:
+        mod._py_rf_write_hdf5 = real_ext
+    ck.enumerations.append(("py.init.parameters_reach_the_c_layer", n, len(bad), bad[:3]))
+    ck.struct("py.init.parameters_reach_the_c_layer", not bad,
+              "DigitalRFWriter.__init__ hands the C layer other channel parameters than the session was opened with in %d of %d cells, e.g. %s" % (len(bad), n, bad[:3]),
+              {"cells": [list(b[0]) for b in bad[:6]]})
+    ck.assumptions += ["DigitalRFWriter.__init__: enumerated over 10 component types x 3 byte orders x 3-4 ways of giving the sample type with one distinctive value per other parameter (numpy dtype algebra executed, not modelled)"]
+
+
+def replay_init_params(o, model):
+    """native replay: a channel recorded with one byte order, then a session that differs in the byte order only (must be refused), per failing cell"""
+    from checks import replay_py
+    cells = (getattr(o, "meta", None) or {}).get("cells") or [list(c) for c in init_cells()]
+    r = replay_py.run_driver("init_params.py", {"cells": cells, "max_failures": 1}, timeout=600)
+    if r["failures"]:
+        f = r["failures"][0]
+        return True, "sessions on the real writer: %s\n  case: %s" % (f["what"], str(f.get("case"))[:400]), f
+    return False, "no deviation among %d two-session scenarios" % r["cases"], None
